@@ -13,11 +13,12 @@ KINDS = {
     "block": (lockstep.gen_block_case, lockstep.coq_expr, lockstep.impl_lines, 800),
     "step": (lockstep.gen_step_case, lockstep.coq_expr_x, lockstep.impl_lines_x, 3000),
     "dep": (lockstep.gen_dep_case, lockstep.coq_expr_d, lockstep.impl_lines_d, 4000),
+    "cblock": (lockstep.gen_cblock_case, lockstep.coq_expr_c, lockstep.impl_lines_c, 1500),
 }
 
 
 def has_fail(case):
-    return any(c.get("raises") for c in case["calls"])
+    return any(c.get("raises") for c in case["calls"]) or bool(case.get("iofault_fired"))
 
 
 def explore(res, kinds, n_per_kind, allow_fail=True, extra_cases=None):
@@ -35,19 +36,26 @@ def explore(res, kinds, n_per_kind, allow_fail=True, extra_cases=None):
         cases.append((kind, c))
     results = lockstep.run_cases([c for _, c in cases])
     runs = [(k, c, r) for (k, c), r in zip(cases, results)]
+    for k, c, r in runs:
+        if c.get("iofault") and any(t[2][0] == "iofault" for t in r.get("trace", [])):
+            c["iofault_fired"] = True
     return runs
 
 
 def lockstep_compare(runs):
     """model vs implementation on the runs; returns (compared, divergences)"""
-    ok = [(k, c, r) for k, c, r in runs if r["verdict"] in ("done", "deadlock", "quiescent")]
+    # runs with an injected I/O fault are judged by the oracles only (the model has no such fault)
+    ok = [(k, c, r) for k, c, r in runs if r["verdict"] in ("done", "deadlock", "quiescent") and not c.get("iofault_fired")]
     exprs = [KINDS[k][1](c, r) for k, c, r in ok]
     outs = core.eval_strings(IMPORTS, exprs, "lockstep", shard=120)
     div = []
     for (k, c, r), o in zip(ok, outs):
         il = KINDS[k][2](c, r)
-        cut = lockstep.cut_at_reraise(r) if k != "block" else None
-        d = lockstep.compare_lines(il, o, cut) if k != "block" else lockstep.compare(c, r, o)
+        cut = lockstep.cut_at_reraise(r) if k not in ("block", "cblock") else None
+        if k == "cblock":
+            d = lockstep.compare_noen(c, r, o)
+        else:
+            d = lockstep.compare_lines(il, o, cut) if k != "block" else lockstep.compare(c, r, o)
         if d:
             div.append({"kind": k, "case": strip(c), "divergence": d})
     harness = [{"kind": k, "case": strip(c), "verdict": r["verdict"], "error": (r.get("error") or "")[-800:]}
